@@ -301,7 +301,7 @@ package pokertable
 //@ spec applied(g, r) = ncalls() == old(ncalls()) + 2 && callfn(old(ncalls()) + 1) == "game.enqueue" && callarg(old(ncalls()) + 1, 0) == callres(old(ncalls()), 0) && r == g.gs && g.gs != nil
 
 //@ func (*game).Pass
-//@   property C10 C13
+//@   property C10 C13 C16
 //@   returns r, err
 //@   requires g != nil && g.gs != nil
 //@   modifies g.gs, log
@@ -312,7 +312,7 @@ package pokertable
 //@   ensures success-applied-once: err == nil ==> applied(g, r)
 
 //@ func (*game).Fold
-//@   property C10 C13
+//@   property C10 C13 C16
 //@   returns r, err
 //@   requires g != nil && g.gs != nil
 //@   modifies g.gs, log
@@ -323,7 +323,7 @@ package pokertable
 //@   ensures success-applied-once: err == nil ==> applied(g, r)
 
 //@ func (*game).Check
-//@   property C10 C13
+//@   property C10 C13 C16
 //@   returns r, err
 //@   requires g != nil && g.gs != nil
 //@   modifies g.gs, log
@@ -334,7 +334,7 @@ package pokertable
 //@   ensures success-applied-once: err == nil ==> applied(g, r)
 
 //@ func (*game).Call
-//@   property C10 C13
+//@   property C10 C13 C16
 //@   returns r, err
 //@   requires g != nil && g.gs != nil
 //@   modifies g.gs, log
@@ -345,7 +345,7 @@ package pokertable
 //@   ensures success-applied-once: err == nil ==> applied(g, r)
 
 //@ func (*game).Allin
-//@   property C10 C13
+//@   property C10 C13 C16
 //@   returns r, err
 //@   requires g != nil && g.gs != nil
 //@   modifies g.gs, log
@@ -356,7 +356,7 @@ package pokertable
 //@   ensures success-applied-once: err == nil ==> applied(g, r)
 
 //@ func (*game).Bet
-//@   property C10 C13
+//@   property C10 C13 C16
 //@   returns r, err
 //@   requires g != nil && g.gs != nil
 //@   modifies g.gs, log
@@ -367,7 +367,7 @@ package pokertable
 //@   ensures success-applied-once: err == nil ==> applied(g, r)
 
 //@ func (*game).Raise
-//@   property C10 C13
+//@   property C10 C13 C16
 //@   returns r, err
 //@   requires g != nil && g.gs != nil
 //@   modifies g.gs, log
